@@ -16,7 +16,7 @@ REPO = os.environ.get('VERIF_REPO', '/repo')
 OUT = os.path.join(ROOT, 'replays')
 
 
-def run_harness(mode, timeout=600, hooks=False):
+def run_harness(mode, timeout=600, hooks=False, tier='quick'):
     """build + run the replay harness for `mode`; returns dict(found, witness, log)"""
     src = os.path.join(ROOT, 'replay', 'src', 'main.rs')
     if not os.path.exists(src):
@@ -36,7 +36,7 @@ def run_harness(mode, timeout=600, hooks=False):
         # the replay runs the code as shipped (guard OFF) unless VERIF_REPLAY_HOOKS=1
         hook = ' --cfg similar_verif' if (hooks or os.environ.get('VERIF_REPLAY_HOOKS') == '1') else ''
         env['RUSTFLAGS'] = (rf + hook + ' -Awarnings').strip()
-        p = subprocess.run(['cargo', 'run', '--release', '--offline', '-q', '--', mode], cwd=scratch, env=env,
+        p = subprocess.run(['cargo', 'run', '--release', '--offline', '-q', '--', mode] + (['thorough'] if tier == 'thorough' else []), cwd=scratch, env=env,
                            stdout=subprocess.PIPE, stderr=subprocess.PIPE, text=True, timeout=timeout)
         log = (p.stdout[-6000:] + '\n' + p.stderr[-3000:]).strip()
         found = False
